@@ -142,6 +142,32 @@ func RealComp(c *model.Comp) *psatoken.SwComponent {
 	return &psatoken.SwComponent{MeasurementType: cp(c.MType), MeasurementValue: cb(c.MVal), Version: cp(c.Version), SignerID: cb(c.Signer), MeasurementDesc: cp(c.Desc)}
 }
 
+// RealCompSetters builds a *SwComponent through the component's own setters
+// (falling back to direct assignment if a setter refuses the value).
+func RealCompSetters(c *model.Comp) *psatoken.SwComponent {
+	sc := &psatoken.SwComponent{}
+	ok := true
+	if c.MVal != nil {
+		ok = ok && sc.SetMeasurementValue(append([]byte{}, (*c.MVal)...)) == nil
+	}
+	if c.Signer != nil {
+		ok = ok && sc.SetSignerID(append([]byte{}, (*c.Signer)...)) == nil
+	}
+	if c.MType != nil {
+		ok = ok && sc.SetMeasurementType(*c.MType) == nil
+	}
+	if c.Version != nil {
+		ok = ok && sc.SetVersion(*c.Version) == nil
+	}
+	if c.Desc != nil {
+		ok = ok && sc.SetMeasurementDesc(*c.Desc) == nil
+	}
+	if !ok {
+		return RealComp(c)
+	}
+	return sc
+}
+
 // ErrUnbuildable marks abstract sets that cannot exist as a directly built
 // object (e.g. a profile-2 profile claim that is neither URL nor OID).
 var ErrUnbuildable = errors.New("unbuildable")
@@ -316,7 +342,7 @@ func SetterApply(c psatoken.IClaims, a *model.Claims) error {
 	if len(a.Comps) > 0 {
 		var scs []psatoken.ISwComponent
 		for i := range a.Comps {
-			scs = append(scs, RealComp(&a.Comps[i]))
+			scs = append(scs, RealCompSetters(&a.Comps[i]))
 		}
 		if err := c.SetSoftwareComponents(scs); err != nil {
 			return err
